@@ -26,6 +26,11 @@ type (
 // VerifVertexID is graph.VertexID.
 func VerifVertexID(v graph.Vertex) interface{} { return graph.VertexID(v) }
 
+// VerifAdjacency is graph.VerifAdjacency.
+func VerifAdjacency(g *graph.Graph) (out, in map[interface{}]map[interface{}]int) {
+	return graph.VerifAdjacency(g)
+}
+
 // VerifOrdReset clears the order tape and seeds the permutation source.
 func VerifOrdReset(seed uint64, on bool) { veriford.Reset(seed, on) }
 
